@@ -23,7 +23,7 @@ type C15Case struct {
 var c15Kinds = []string{"absent", "present-valid", "present-garbage", "unwritable-EACCES", "unwritable-EROFS",
 	"dir-at-output", "log-unwritable", "log-is-dir", "mid-write", "stat-src-error", "open-EMFILE", "commit-error"}
 
-var outVariants = []string{"same-dir", "subdir", "other-pkg", "outside", "parent-missing", "abs-same-dir"}
+var outVariants = []string{"same-dir", "subdir", "other-pkg", "outside", "parent-missing", "abs-same-dir", "dotdot-outside"}
 
 func logPathFor(out string) string {
 	ext := filepath.Ext(out)
@@ -38,35 +38,56 @@ func genC15(cfg Config, ws *WorldSet, i, perWorld int) C15Case {
 	canon := ws.Canon[wi]
 	r := sim.Derive(cfg.Seed, "C15", "case", i)
 	setup := "{W}/" + world.Setup
-	form := sim.Pick(r, []string{"rel-pkgdir", "rel-pkgdir", "rel-modroot", "abs", "gofile", "dot-rel-pkgdir"})
+	form := sim.Pick(r, []string{"rel-pkgdir", "rel-pkgdir", "rel-modroot", "abs", "gofile", "dot-rel-pkgdir", "symlink-modroot"})
 	cwd, in, gofile := InputForm(form, setup)
+	// where the kernel is when the process starts (the symlinked form resolved)
+	physCwd := cwd
+	if strings.HasPrefix(cwd, "{W}/elsewhere/modlink") {
+		physCwd = "{W}/mod" + strings.TrimPrefix(cwd, "{W}/elsewhere/modlink")
+	}
 	iv := Invocation{Dry: fs&1 != 0, Print: fs&2 != 0, Log: fs&4 != 0, Cwd: cwd, Input: in, GoFile: gofile, FlagOrder: r.Intn(6)}
 	kind := sim.Pick(r, c15Kinds)
 	pkgDir := filepath.Dir(setup)
+	// absolute paths are spelled the way a user in that shell would ($PWD/...)
+	logical := func(p string) string {
+		if physCwd != cwd {
+			return "{W}/elsewhere/modlink" + strings.TrimPrefix(p, "{W}/mod")
+		}
+		return p
+	}
 	if fs&8 != 0 {
 		ov := sim.Pick(r, outVariants)
 		switch ov {
 		case "same-dir":
 			iv.OutArg = "custom_out.go"
-			if cwd != pkgDir {
-				iv.OutArg = pkgDir + "/custom_out.go"
+			if physCwd != pkgDir {
+				iv.OutArg = logical(pkgDir) + "/custom_out.go"
 			}
 		case "abs-same-dir":
-			iv.OutArg = pkgDir + "/zz_generated.go"
+			iv.OutArg = logical(pkgDir) + "/zz_generated.go"
 		case "subdir":
-			iv.OutArg = pkgDir + "/sub/out.gen.go"
+			iv.OutArg = logical(pkgDir) + "/sub/out.gen.go"
+		case "dotdot-outside":
+			// climbs out of the module with "..": resolved by the kernel against the
+			// physical directory. The lexically collapsed spelling (against a symlinked
+			// $PWD) names another existing directory: elsewhere/outside
+			up, _ := filepath.Rel(strings.TrimPrefix(physCwd, "{W}"), "/outside/out.gen.go")
+			iv.OutArg = up
 		case "other-pkg":
 			iv.OutArg = "{W}/mod/zz_elsewhere/conv.gen.go"
 		case "outside":
 			iv.OutArg = "{W}/outside/out.gen.go"
 		case "parent-missing":
-			iv.OutArg = pkgDir + "/no/such/dir/out.gen.go"
+			iv.OutArg = logical(pkgDir) + "/no/such/dir/out.gen.go"
 		}
 		kind += "/out=" + ov
 	}
-	iv.OutPath = ResolveOut(cwd, in, gofile, iv.OutArg)
+	iv.OutPath = ResolveOut(physCwd, in, gofile, strings.Replace(iv.OutArg, "{W}/elsewhere/modlink", "{W}/mod", 1))
+	if iv.OutArg == "" {
+		iv.OutPath = ResolveOut(filepath.Dir(setup), filepath.Base(setup), "", "")
+	}
 	c := C15Case{World: world}
-	var steps []Step
+	steps := []Step{{Op: "symlink", Path: "{W}/elsewhere/modlink", Data: []byte("{W}/mod")}, {Op: "write", Path: "{W}/elsewhere/outside/keep.txt", Data: []byte("a directory that a lexically collapsed ../outside would name\n")}}
 	plan := &sim.Plan{Markers: genMarkers(r, 4)}
 	base := strings.SplitN(kind, "/", 2)[0]
 	if strings.Contains(kind, "other-pkg") {
@@ -133,7 +154,7 @@ func genC15(cfg Config, ws *WorldSet, i, perWorld int) C15Case {
 			bin = "plain"
 		}
 	}
-	run := Step{Op: "run", Inv: &iv, Bin: bin, GMP: sim.Pick(r, []int{0, 1, 2, 4})}
+	run := Step{Op: "run", Inv: &iv, Bin: bin, GMP: sim.Pick(r, []int{0, 1, 2, 4}), HomeRel: "home"}
 	if bin == "sim" {
 		run.Plan = plan
 	}
@@ -356,7 +377,7 @@ func runC15(cfg Config, args []string) int {
 		Rule: "one case = one fresh convergen process in a fresh world (fixture or synthetic, accepted or rejected), for every one of the 16 flag sets per world, " +
 			"with a seeded output-path state / injected I/O fault; the whole world tree (module, outside/, elsewhere/, tmp/) is hashed before and after. " +
 			"distinct_nontrivial counts distinct (flag set, state-or-fault kind incl. -out variant, run outcome, accepted/rejected world) tuples.",
-		Assume: []string{"the frame is judged on the kernel's view of the scratch tree; HOME and GOCACHE of the go tool are outside the world and not part of the frame",
+		Assume: []string{"the frame is judged on the kernel's view of the scratch tree, which includes the run's HOME (go telemetry switched off beforehand) and TMPDIR; GOCACHE and GOMODCACHE of the go tool are outside the world and not part of the frame",
 			"checks run as root: EACCES/EROFS/EMFILE are injected at the os facade, ENOENT/EISDIR are real"},
 		Extra:    map[string]any{"components_real": componentsReal, "components_simulated": componentsSim, "seam": env.Seam, "simulated_time": "not applicable: convergen reads no clock; the facade clock was never read"},
 		Required: []string{"n:outcome:ok", "n:outcome:fail", "n:must_not_touch_output", "n:output_open_faults_fired"},
